@@ -56,6 +56,36 @@ def check_time_column_usage(where, time_filter, time_column_name):
     check(where)
 
 
+def check_latest_usage(where, time_filter):
+    """LATEST is known only to the planner, as the value of `column > LATEST` or `column = LATEST`. With any other
+    operator (`>=`, `<`, `<=`, BETWEEN, IN) or on another column the keyword would be sent to the database as it is."""
+    from mindsdb_sql.parser.dialects.mindsdb.latest import Latest
+
+    supported = None
+    if (
+        isinstance(time_filter, BinaryOperation)
+        and time_filter.op in ('>', '=')
+        and isinstance(time_filter.args[1], Latest)
+    ):
+        supported = time_filter.args[1]
+
+    def check(node):
+        if isinstance(node, Latest):
+            if node is not supported:
+                raise PlanningException(
+                    f'Unsupported usage of LATEST in WHERE: {str(where)}. '
+                    f'Only filters in form of: column > LATEST or column = LATEST are supported')
+        elif isinstance(node, (list, tuple)):
+            for item in node:
+                check(item)
+        elif isinstance(node, ASTNode) and not isinstance(node, (Identifier, Select)):
+            for name, value in vars(node).items():
+                if name != 'alias':
+                    check(value)
+
+    check(where)
+
+
 def replace_time_filter(op, time_filter, new_filter):
     if op == time_filter:
         return new_filter
